@@ -21,7 +21,8 @@ from . import builders as B
 
 ID = "C17"
 RULE = ("one world per seed: product (call/put/forward/digital/call spread/butterfly/4 barrier types/CDS on a default "
-        "time; strikes, barriers, thresholds near the paths), 2-5 path dates, session of 1-3 runs of the SAME product "
+        "time, on the n-th default and on the k-th name's default/Asian call or put on the underlying's own schedule/"
+        "multi-asset/rates; strikes, barriers, thresholds near the paths), 2-5 path dates, session of 1-3 runs of the SAME product "
         "object, each run = (engine standard | multilevel fixed-level, representation LOG | IDENTITY, nb_of_processes, "
         "n paths); explicit paths from sha256(seed). non-trivial = session with >=2 runs or a path-dependent payoff whose "
         "event happened on some but not all paths; distinct = hash(product kind, run kinds, event pattern)")
@@ -36,7 +37,8 @@ TIERS = {
     "quick": {"worlds": 900, "wall": 500, "shrink_budget": 60,
               "required_probes": ["c17.run_completed", "c17.barrier_event_mixed", "c17.reuse_log_then_identity",
                                   "c17.multilevel_run", "c17.pool_run", "c17.default_happened", "c17.default_mixed",
-                                  "c17.stochastic_time_grid", "c17.shared_control_variates"]},
+                                  "c17.stochastic_time_grid", "c17.shared_control_variates", "c17.asian_run",
+                                  "c17.kth_name_default_run"]},
     "thorough": {"worlds": 200000, "wall": 3300, "shrink_budget": 150,
                  "required_probes": ["c17.run_completed", "c17.barrier_event_mixed", "c17.reuse_log_then_identity",
                                      "c17.multilevel_run", "c17.pool_run", "c17.default_happened",
@@ -44,7 +46,7 @@ TIERS = {
 }
 
 KINDS = ["call", "put", "forward", "digital_call", "digital_put", "callspread", "butterfly",
-         "barrier", "barrier", "barrier", "cds", "ntd", "ntd", "multi", "multi", "rates"]
+         "barrier", "barrier", "barrier", "cds", "ntd", "ntd", "multi", "multi", "rates", "asian", "asian", "cdsk"]
 
 
 def generate(seed, tier="quick"):
@@ -65,26 +67,33 @@ def generate(seed, tier="quick"):
         spec.update(default_level=r.choice([-0.05, -0.1]), recovery=0.4, spread=0.01)
     if kind == "multi":
         d = r.choice([2, 3])
-        spec.update(names=d, sub=r.choice(["logspot", "performances_rainbow", "max_performances", "mean", "nthspot", "indicators"]),
-                    nth=r.randrange(1, d + 1))
+        spec.update(names=d, sub=r.choice(["logspot", "performances_rainbow", "max_performances", "mean", "nthspot", "indicators",
+                                           "performances_rainbow", "coupon"]),
+                    nth=r.randrange(1, d + 1), cp=r.choice(["CALL", "PUT"]))
     if kind == "rates":
         d = r.choice([2, 3])
         spec.update(names=d, sub=r.choice(["bond", "cap", "swaption", "ratchet"]))
-    if kind == "ntd":
+    if kind in ("ntd", "cdsk"):
         d = r.choice([2, 3])
         spec.update(names=d, default_levels=[r.choice([-0.05, -0.08, -0.12]) for _ in range(d)], index=r.randrange(1, d + 1),
                     recovery=0.4, spread=0.01)
+    if kind == "asian":
+        # averaging dates come from the underlying's own schedule (Asian.compute_times_grid)
+        disc = r.choice(["MONTHLY", "MONTHLY", "WEEKLY", "YEARLY"])
+        if disc == "YEARLY":
+            spec["maturity"] = T = r.choice([2.0, 3.0])
+        spec.update(disc=disc, cp=r.choice(["CALL", "PUT"]))
     nruns = r.choice([1, 2, 2, 3])
     runs = []
     for _ in range(nruns):
         eng = r.choice(["standard", "standard", "mlmc"])
-        rep = "LOG" if kind in ("cds", "ntd") else ("IDENTITY" if kind == "rates" else r.choice(["LOG", "IDENTITY"]))
+        rep = "LOG" if kind in ("cds", "ntd", "cdsk") else ("IDENTITY" if kind == "rates" else r.choice(["LOG", "IDENTITY"]))
         runs.append({"engine": eng, "rep": rep, "nproc": r.choice([1, 1, 2, 4]), "n": r.choice([2, 3, 5, 9, 20]),
                      "max_level": r.choice([1, 2])})
     vol = r.choice([0.03, 0.08, 0.15])
     return {"world_seed": seed, "product": spec, "x0": x0, "runs": runs, "vol": vol, "df": r.choice([1.0, 0.9]),
             "drift": r.choice([0.0, 0.0, 0.08, -0.15]), "jitter": r.random() < 0.4,
-            "control": (r.choice(["spot_forward", "logspot_forward", "logspot_forward"]) if (kind not in ("multi", "rates", "ntd", "cds") and r.random() < 0.35) else None),
+            "control": (r.choice(["spot_forward", "logspot_forward", "logspot_forward"]) if (kind not in ("multi", "rates", "ntd", "cds", "cdsk") and r.random() < 0.35) else None),
             "pseed": r.randrange(10 ** 9), "jump_prob": r.choice([0.0, 0.3, 0.6]),
             "env": {"cpu_count": 4, "path_cost": 1e-5, "spawn_cost": 1e-4}}
 
@@ -130,7 +139,8 @@ def _paths(sc, count, m, log, rng):
     names = sc["product"].get("names")
 
     def one():
-        steps = [rng.gauss(0.0, sc["vol"]) for _ in range(m - 1)]
+        vol_ = sc["vol"] * (1.0 if m <= 5 else (4.0 / (m - 1)) ** 0.5)  # many averaging dates: same terminal dispersion
+        steps = [rng.gauss(0.0, vol_) for _ in range(m - 1)]
         jumps = [(-rng.uniform(0.02, 0.2) if rng.random() < 0.5 else rng.uniform(0.01, 0.1)) if rng.random() < sc["jump_prob"] else 0.0
                  for _ in range(m - 1)]
         d = np.concatenate(([0.0], np.cumsum(steps)))
@@ -177,12 +187,26 @@ def execute(wd, sc):
     times = np.linspace(0.0, T, m)
     model_for_cds = stubs.StubModel(df_value=1.0)
     model_for_cds.df = lambda t: float(np.exp(-0.03 * t))
-    if spec["kind"] == "ntd":
+    if spec["kind"] == "asian":
+        from rpylib.product.payoff import Vanilla, PayoffType
+        from rpylib.product.product import Product
+        from rpylib.product.underlying import Asian, Discretisation
+
+        product = Product(payoff_underlying=Asian(Discretisation[spec["disc"]]),
+                          payoff=Vanilla(strike=spec["strike"], payoff_type=PayoffType[spec["cp"]]), maturity=T,
+                          notional=spec["notional"])
+        times = np.asarray(product.times_grid().grid, dtype=float)  # the product's own averaging dates
+        m = len(times)
+    elif spec["kind"] in ("ntd", "cdsk"):
         from rpylib.product.payoff import CDS
         from rpylib.product.product import Product
-        from rpylib.product.underlying import NthDefaultTimes
+        from rpylib.product.underlying import NthDefaultTimes, DefaultTimeNthUnderlying
 
-        product = Product(payoff_underlying=NthDefaultTimes(default_levels=list(spec["default_levels"]), index=spec["index"]),
+        if spec["kind"] == "ntd":
+            und_ = NthDefaultTimes(default_levels=list(spec["default_levels"]), index=spec["index"])
+        else:
+            und_ = DefaultTimeNthUnderlying(default_levels=list(spec["default_levels"]), underlying_index=spec["index"])
+        product = Product(payoff_underlying=und_,
                           payoff=CDS(recovery_rate=spec["recovery"], spread=spec["spread"], maturity=T,
                                      discounting=model_for_cds.df), maturity=T, notional=spec["notional"])
     elif spec["kind"] == "multi":
@@ -197,11 +221,16 @@ def execute(wd, sc):
             und, pay = U.LogSpot(), PayoffOnTheFly(_sum_of)
         elif sub == "performances_rainbow":
             w = [0.5, 0.3, 0.2][:d_]
-            und, pay = U.Performances(spots0), Rainbow(weights=[x / sum(w) for x in w], strike=1.0, payoff_type=PayoffType.CALL)
+            und, pay = U.Performances(spots0), Rainbow(weights=[x / sum(w) for x in w], strike=1.0,
+                                                       payoff_type=PayoffType[spec.get("cp", "CALL")])
         elif sub == "max_performances":
             und, pay = U.MaximumOfPerformances(spots0), Vanilla(strike=1.0, payoff_type=PayoffType.CALL)
         elif sub == "mean":
             und, pay = U.Mean(), Vanilla(strike=spec["strike"], payoff_type=PayoffType.PUT)
+        elif sub == "coupon":
+            from rpylib.product.payoff import FixedCoupon
+
+            und, pay = U.Spot(), FixedCoupon(coupon=0.05 * sc["x0"])
         elif sub == "nthspot":
             und, pay = U.NthSpot(spec["nth"]), Vanilla(strike=spec["strike"], payoff_type=PayoffType.CALL)
         else:
@@ -228,7 +257,7 @@ def execute(wd, sc):
         product = Product(payoff_underlying=Libors(), payoff=pay, maturity=T, notional=spec["notional"])
     else:
         product = B.build_product(spec, model_for_cds)
-    if spec["kind"] not in ("cds", "ntd", "multi", "rates") and m > 2:
+    if spec["kind"] not in ("cds", "ntd", "cdsk", "multi", "rates", "asian") and m > 2:
         # path observed on m dates but payoff on the terminal spot: Spot underlying with an m-point grid
         from rpylib.product.underlying import Spot
 
@@ -286,8 +315,23 @@ def execute(wd, sc):
         except Exception as e:
             errors.append({"kind": type(e).__name__, "msg": f"run {ri}: " + str(e)[:160]})
             wd.probes["c17.run_raised"] += 1
+            # did the ENGINE fail, or has the product no value on this (valid) path at all?  Evaluate a fresh copy of the
+            # pristine product directly on the first path scripted for this run.
+            d0, j0, t0 = wd.stub_paths[0]
+            pt0 = np.asarray(t0 if t0 is not None else times, dtype=float)
+            j0 = np.asarray(j0, dtype=float)
+            p0 = base + drift * pt0 + np.asarray(d0, dtype=float) + j0
+            try:
+                _evaluate(pristine, run["rep"], pt0, p0, j0)
+            except Exception as e2:
+                add(f"C17.value|a product built from the library's own payoff and underlying has no value on a valid path: evaluation raises|{type(e2).__name__}|underlying={type(pristine.payoff_underlying).__name__}|rep={run['rep']}",
+                    {"run": ri, "error": str(e2)[:200], "times": pt0.tolist(), "path": np.asarray(p0).tolist()})
             continue
         wd.probes["c17.run_completed"] += 1
+        if kind == "asian":
+            wd.probes["c17.asian_run"] += 1
+        if kind == "cdsk":
+            wd.probes["c17.kth_name_default_run"] += 1
         if run["nproc"] != 1:
             wd.probes["c17.pool_run"] += 1
         if ri > 0 and sc["runs"][ri - 1]["rep"] == "LOG" and run["rep"] == "IDENTITY":
@@ -307,7 +351,7 @@ def execute(wd, sc):
                         path_ = base + drift * ptimes_ + np.asarray(rec_["diff"]) + np.asarray(rec_["jump"])
                         cval, _ = _evaluate(cv_pristine, run["rep"], ptimes_, path_, np.asarray(rec_["jump"]))
                         exp_c = float(np.ravel(cval)[0]) * df
-                        if not np.isclose(cstore[i], exp_c, rtol=1e-12, atol=1e-12 * (1 + abs(exp_c))):
+                        if not np.isclose(cstore[i], exp_c, rtol=1e-12, atol=1e-12 * (1 + abs(exp_c)), equal_nan=True):
                             anylog = any(r_["rep"] == "LOG" for r_ in sc["runs"][:ri])
                             hist2 = "first-run" if ri == 0 else ("after-a-LOG-run" if anylog else "after-IDENTITY-runs")
                             add(f"C17.history|stored control-variate payoff differs from the value of a fresh copy of the control product on the same path|{sc['control']}|{hist2}|rep={run['rep']}",
@@ -343,14 +387,14 @@ def execute(wd, sc):
                     got = float(store[i])
                     ev = getattr(pobj.payoff, "barrier_event", None)
                     ev_pair.append(ev)
-                    if kind in ("cds", "ntd"):
+                    if kind in ("cds", "ntd", "cdsk"):
                         uv = pobj.payoff_underlying.value(ptimes, path, j)
                         if np.isfinite(uv):
                             wd.probes["c17.default_happened"] += 1
                         events.append(bool(np.isfinite(uv)))
                     elif ev is not None:
                         events.append(bool(ev))
-                    if not np.isclose(got, exp, rtol=1e-12, atol=1e-12 * (1 + abs(exp))):
+                    if not np.isclose(got, exp, rtol=1e-12, atol=1e-12 * (1 + abs(exp)), equal_nan=True):
                         comp = "fine" if ci == 0 else "coarse"
                         if lvl is None:
                             comp = "single"
@@ -380,7 +424,7 @@ def execute(wd, sc):
                 if len(ev_pair) == 2 and ev_pair[0] is not None and ev_pair[0] != ev_pair[1]:
                     wd.probes["c17.fine_coarse_events_differ"] += 1
         if events and any(events) and not all(events):
-            wd.probes["c17.barrier_event_mixed" if kind not in ("cds", "ntd") else "c17.default_mixed"] += 1
+            wd.probes["c17.barrier_event_mixed" if kind not in ("cds", "ntd", "cdsk") else "c17.default_mixed"] += 1
         pattern.append((run["engine"], run["rep"], run["nproc"] == 1, tuple(events[:12])))
     key = hashlib.sha256(repr((kind, spec.get("barrier_type"), m, tuple(pattern))).encode()).hexdigest()[:16]
     nontrivial = len(reps_seen) >= 2 or any(p[3] and any(p[3]) and not all(p[3]) for p in pattern)
@@ -400,7 +444,73 @@ def _monitors(add, sc, pristine, rep, times, path, jump, base, log):
 
     spec = sc["product"]
     kind = spec["kind"]
+    if kind == "multi" and spec.get("sub") == "mean":
+        from rpylib.product.underlying import Mean
+
+        u_ = Mean()
+        u_.update(ProcessRepresentation.LOG if log else ProcessRepresentation.IDENDITY)
+        got = float(u_.value(times, path, jump))
+        term = np.exp(np.asarray(path)[..., -1]) if log else np.asarray(path)[..., -1]
+        if not (term.min() * (1 - 1e-12) <= got <= term.max() * (1 + 1e-12)):
+            add("C17.identity|an average does not lie between the extremes it averages|underlying=Mean",
+                {"got": got, "min": float(term.min()), "max": float(term.max())})
     if kind in ("multi", "rates"):
+        return
+    if kind == "asian":
+        from rpylib.product.underlying import Asian, Discretisation
+
+        spot_path = np.exp(path) if log else np.asarray(path, dtype=float)
+        vals = {}
+        for use_log in ((True, False) if np.all(spot_path > 0) else (False,)):  # a log path needs positive spots
+            u_ = Asian(Discretisation[spec["disc"]])
+            u_.update(ProcessRepresentation.LOG if use_log else ProcessRepresentation.IDENDITY)
+            try:
+                vals[use_log] = float(u_.value(times, np.log(spot_path) if use_log else spot_path, jump))
+            except Exception as e:
+                add(f"C17.value|a product built from the library's own payoff and underlying has no value on a valid path: evaluation raises|{type(e).__name__}|underlying=Asian|rep={'LOG' if use_log else 'IDENTITY'}",
+                    {"error": str(e)[:200]})
+        for use_log, v_ in vals.items():
+            if not (spot_path.min() * (1 - 1e-12) <= v_ <= spot_path.max() * (1 + 1e-12)):
+                add("C17.identity|an average does not lie between the extremes it averages|underlying=Asian",
+                    {"got": v_, "min": float(spot_path.min()), "max": float(spot_path.max()), "log": use_log})
+        if len(vals) == 2 and not np.isclose(vals[True], vals[False], rtol=1e-12):
+            add("C17.rep|logarithmic and identity representations give different underlying values for one spot path|underlying=Asian",
+                {"log": vals[True], "identity": vals[False]})
+    if kind in ("ntd", "cdsk", "cds"):
+        # same spot path (and the same jumps, as ratios) in the other representation -> same default time
+        from rpylib.product.underlying import NthDefaultTimes, DefaultTimeNthUnderlying
+
+        if kind == "cds":
+            mk = lambda: DefaultTime(spec["default_level"])
+        elif kind == "ntd":
+            mk = lambda: NthDefaultTimes(default_levels=list(spec["default_levels"]), index=spec["index"])
+        else:
+            mk = lambda: DefaultTimeNthUnderlying(default_levels=list(spec["default_levels"]), underlying_index=spec["index"])
+        ul, ui = mk(), mk()
+        ul.update(ProcessRepresentation.LOG)
+        ui.update(ProcessRepresentation.IDENDITY)
+        lp, lj = (np.asarray(path), np.asarray(jump)) if log else (np.log(path), np.log(jump))
+        a_ = float(ul.value(times, lp, lj))
+        try:
+            b_ = float(ui.value(times, np.exp(lp), np.exp(lj)))
+        except Exception as e:
+            b_ = None
+            add(f"C17.rep|logarithmic and identity representations give different underlying values for one spot path|underlying={type(ui).__name__}|identity-raises-{type(e).__name__}",
+                {"log": a_, "identity": "raised: " + str(e)[:160]})
+        if b_ is not None and a_ != b_:
+            add(f"C17.rep|logarithmic and identity representations give different underlying values for one spot path|underlying={type(ui).__name__}",
+                {"log": a_, "identity": b_})
+    if kind == "cdsk":
+        k_ = spec["index"] - 1
+        a_ = list(spec["default_levels"])[k_]
+        u_ = DefaultTimeNthUnderlying(default_levels=list(spec["default_levels"]), underlying_index=spec["index"])
+        u_.update(ProcessRepresentation.LOG)
+        got = float(u_.value(times, path, jump))
+        idx = [i for i, x in enumerate(np.diff(np.asarray(jump)[k_])) if x < a_]
+        exp = times[idx[0] + 1] if idx else np.inf
+        if got != exp:
+            add("C17.identity|default time of the k-th name is not the first time one of its jumps falls below its threshold",
+                {"got": got, "expected": float(exp), "k": k_ + 1})
         return
     if kind == "ntd":
         # n-th default times are non-decreasing in n, each is the first time a jump of that name falls below its level
